@@ -172,6 +172,10 @@ def interrupted_runs(ctx):
 
 def run(ctx):
     scs = _scn.standard_pool(ctx, ctx.scale(50, 900), ctx.scale(30, 400), ctx.scale(4, 40))
+    # generations written in the days around New Year (calendar year and week-based year differ there)
+    scs.insert(0, {"profile": "c06-new-year", "root": "reel", "tree": {"a.txt": "a", "s/b.txt": "b"},
+                   "ops": [{"op": "create", "at": "s", "h": ["md5"], "now": "2024-12-29 23:59:59"}] + [{"op": "create", "at": "", "h": ["md5"], "now": n} for n in
+                           ("2024-12-30 08:00:00", "2024-12-31 23:59:59", "2025-01-01 00:00:00", "2026-12-31 12:00:00", "2027-01-01 00:00:01", "2027-01-03 10:00:00")] + [{"op": "info", "at": ""}]})
     # folder and file names in decomposed unicode form (as copied from macOS volumes), nested
     nfd = {"root": "Cafe\u0301", "profile": "c06-nfd", "tree": {"e\u0301/a\u0308.txt": "x", "e\u0301/sub/b.txt": "y", "top.txt": "t"},
            "ops": [{"op": "create", "at": "e\u0301", "h": ["md5"], "now": "2026-03-01 12:00:00"}, {"op": "create", "at": "", "h": ["md5"], "now": "2026-03-01 12:00:01"},
